@@ -7,7 +7,9 @@
 //!   T=<tid>:<stack base>:<bytes>:<regs>        thread; bytes = hex | z<n> (n zero bytes) | -
 //!                                              regs = name=val,... | -   (context flags say "all valid")
 //!   X=<tid>:<code>:<flags>:<addr>:<nparams>:<info0>:<info1>:<regs|->    exception (+ its own context)
-//!   M=<base>:<size>:<name hex>:<symbol index|->   module; symbol text index into the S list
+//!   M=<base>:<size>:<name hex>:<symbol index|->[:<debug file hex>:<id>]   module; symbol text index into the S list;
+//!                                              with the two optional fields the module gets a PDB70 CodeView record
+//!                                              (debug file name, GUID derived from <id>, age 1)
 //!   U=<base>:<size>:<name hex>                 unloaded module
 //!   S=<hex>                                    symbol file bytes (may repeat)
 //!   I=<base>:<size>:<protection>               memory info entry
@@ -90,6 +92,7 @@ pub struct ModSpec {
     pub size: u32,
     pub name: String,
     pub sym: Option<usize>,
+    pub debug: Option<(String, u32)>,
 }
 
 #[derive(Default, Clone)]
@@ -154,8 +157,9 @@ pub fn parse_spec<'a>(toks: impl Iterator<Item = &'a str>) -> Spec {
                 size: num(f[1]) as u32,
                 name: lossy(&unhex(f[2])),
                 sym: if f[3] == "-" { None } else { Some(num(f[3]) as usize) },
+                debug: if f.len() >= 6 { Some((lossy(&unhex(f[4])), num(f[5]) as u32)) } else { None },
             }),
-            "U" => s.unloaded.push(ModSpec { base: num(f[0]), size: num(f[1]) as u32, name: lossy(&unhex(f[2])), sym: None }),
+            "U" => s.unloaded.push(ModSpec { base: num(f[0]), size: num(f[1]) as u32, name: lossy(&unhex(f[2])), sym: None, debug: None }),
             "S" => s.syms.push(unhex(v)),
             "I" => s.meminfo.push((num(f[0]), num(f[1]), num(f[2]) as u32)),
             "R" => s.regions.push((num(f[0]), bytes_spec(f[1]))),
@@ -314,7 +318,21 @@ fn synth(s: &Spec) -> Vec<u8> {
     }
     for m in &s.modules {
         let name = DumpString::new(&m.name, e);
-        let module = Module::new(e, m.base, m.size, &name, 0xb1054d2a, 0x34571371, None);
+        let mut module = Module::new(e, m.base, m.size, &name, 0xb1054d2a, 0x34571371, None);
+        if let Some((file, id)) = &m.debug {
+            let mut fname = file.clone().into_bytes();
+            fname.push(0);
+            let cv = Section::with_endian(e)
+                .D32(md::CvSignature::Pdb70 as u32)
+                .D32(*id)
+                .D16(0xf00d)
+                .D16(0xbeef)
+                .append_bytes(b"\x01\x02\x03\x04\x05\x06\x07\x08")
+                .D32(1)
+                .append_bytes(&fname);
+            module = module.cv_record(&cv);
+            dump = dump.add(cv);
+        }
         dump = dump.add_module(module).add(name);
     }
     for m in &s.unloaded {
